@@ -223,8 +223,9 @@ pub fn child(args: &[String]) -> i32 {
 fn run_child(name: &str, n: usize, flags: &str, thread: bool, wall: u64) -> (String, String) {
     let exe = std::env::current_exe().unwrap();
     let cmd = format!(
-        "ulimit -v 6291456; ulimit -s 8192; exec timeout -s KILL {} '{}' c07-child {} {} -{} {}",
+        "ulimit -v 6291456; ulimit -s 8192; ulimit -S -t {}; exec timeout -s KILL {} '{}' c07-child {} {} -{} {}",
         wall,
+        wall * 4,
         exe.display(),
         name,
         n,
@@ -243,12 +244,14 @@ fn run_child(name: &str, n: usize, flags: &str, thread: bool, wall: u64) -> (Str
             } else {
                 match o.status.code() {
                     Some(0) => "exit0".to_string(),
-                    Some(137) => "timeout".to_string(),
+                    Some(137) => "wall-backstop".to_string(),
+                    Some(152) => "timeout".to_string(),
                     Some(c) => format!("exit{}", c),
                     None => {
                         use std::os::unix::process::ExitStatusExt;
                         match o.status.signal() {
-                            Some(9) => "timeout".to_string(),
+                            Some(24) => "timeout".to_string(), // SIGXCPU: the CPU-time limit
+                            Some(9) => "wall-backstop".to_string(),
                             Some(11) => "stack-overflow".to_string(),
                             s => format!("signal{}", s.unwrap_or(0)),
                         }
@@ -267,9 +270,12 @@ pub fn c07(run: &mut Run) -> Stats {
     let hang = Arc::new(AtomicBool::new(false));
     let toks: Vec<u32> = TOKENS.chars().map(|c| c as u32).collect();
     let n_tok = if thorough { 5 } else { 4 };
+    let t_part = std::time::Instant::now();
     let mut st = sweep_strings(run, &toks, n_tok, "token strings", &hang);
+    println!("  C07 token strings: {:.1}s", t_part.elapsed().as_secs_f64());
     let raw: Vec<u32> = vec![0, 0x28, 0x5C, 0xD800, 0xDFFF, 0x10FFFF, 'a' as u32, '{' as u32, '[' as u32, 'u' as u32, '}' as u32];
     st = st.merge(sweep_strings(run, &raw, if thorough { 6 } else { 5 }, "raw code points", &hang));
+    println!("  C07 + raw code points: {:.1}s", t_part.elapsed().as_secs_f64());
     // (c) every prefix and every suffix of every seed pattern of C08 (truncated constructs)
     {
         let seeds = crate::c08::seed_patterns(thorough);
@@ -309,6 +315,7 @@ pub fn c07(run: &mut Run) -> Stats {
             .reduce(Stats::default, Stats::merge);
         st = st.merge(s3);
     }
+    println!("  C07 + truncations: {:.1}s", t_part.elapsed().as_secs_f64());
     // (c2) every code point of interest in every one-character position of a menu of templates, optimised
     // and unoptimised: all code points with a case partner in either mode, the neighbours of the UTF-8 /
     // UTF-16 length boundaries, ASCII, the surrogate block's ends (thorough: all 0..=0x10FFFF)
@@ -367,6 +374,7 @@ pub fn c07(run: &mut Run) -> Stats {
         run.extra.push(("code_points_in_templates".into(), J::u(npoints as u64)));
         st = st.merge(s4);
     }
+    println!("  C07 + code point templates: {:.1}s", t_part.elapsed().as_secs_f64());
     // (c3) digit runs in every numeric context: prefix x every string over three digits up to length 10 (11
     // thorough) x suffix (values beyond 32 and 64 bits, leading zeros)
     {
@@ -378,12 +386,23 @@ pub fn c07(run: &mut Run) -> Stats {
             jobs.push((pre.to_string(), suf.to_string(), digits.to_string(), digits.split(' ').map(|d| d.chars().next().unwrap()).collect()));
         }
         let known = run.known.clone();
-        let s5 = jobs
+        let chunk = 2048u64;
+        let mut units: Vec<(usize, u64, u64)> = Vec::new();
+        for (ji, (_, _, _, digits)) in jobs.iter().enumerate() {
+            let k = digits.len() as u64;
+            let total: u64 = (0..=maxlen as u32).map(|l| k.pow(l)).sum();
+            let mut lo = 0;
+            while lo < total {
+                units.push((ji, lo, (lo + chunk).min(total)));
+                lo += chunk;
+            }
+        }
+        let s5 = units
             .par_iter()
-            .fold(Stats::default, |mut st, (pre, suf, _, digits)| {
+            .fold(Stats::default, |mut st, &(ji, lo, hi)| {
+                let (pre, suf, _, digits) = &jobs[ji];
                 let k = digits.len() as u64;
-                let total: u64 = (0..=maxlen as u32).map(|l| k.pow(l)).sum();
-                for idx in 0..total {
+                for idx in lo..hi {
                     // shortlex decode
                     let mut rem = idx;
                     let mut len = 0u32;
@@ -418,6 +437,7 @@ pub fn c07(run: &mut Run) -> Stats {
             .reduce(Stats::default, Stats::merge);
         st = st.merge(s5);
     }
+    println!("  C07 + digit runs: {:.1}s", t_part.elapsed().as_secs_f64());
     // size-parameterised shapes, each in a child process
     let sizes: Vec<usize> = if thorough { vec![1, 2, 10, 100, 255, 256, 257, 1000, 10_000, 65_535, 65_536, 100_000, 1_000_000] } else { vec![1, 2, 10, 100, 255, 256, 257, 1000, 10_000, 65_535, 65_536] };
     let mut jobs: Vec<(&str, usize, &str, bool)> = Vec::new();
@@ -462,7 +482,9 @@ pub fn c07(run: &mut Run) -> Stats {
         // for a pattern of at most 2^20 code points (more than 6 KiB per code point). Beyond that length an
         // allocation failure is the harness's cap, not a verdict.
         let pat_len = shape(name, n).map(|p| p.chars().count()).unwrap_or(usize::MAX);
-        if (status == "alloc-failed-under-cap" && pat_len > (1 << 20)) || (status == "timeout" && n > 10_000) {
+        // The time limit is CPU time of the child (independent of how loaded the machine is); the wall-clock
+        // backstop (4x) only fires when the machine itself is starved, which says nothing about the subject.
+        if (status == "alloc-failed-under-cap" && pat_len > (1 << 20)) || (status == "timeout" && n > 10_000) || status == "wall-backstop" {
             caps.push(format!("{} n={} flags={:?} {}: {}", name, n, fs, if th { "thread" } else { "main" }, status));
             st.add("shape_runs_cut_by_caps", 1);
             continue;
@@ -486,12 +508,13 @@ pub fn c07(run: &mut Run) -> Stats {
             .set("pattern_head", J::s(&shape(name, n).unwrap_or_default().chars().take(60).collect::<String>()));
         st.violation(&known, "C07", &format!("{}: shape {}", what, name), n, case);
     }
+    println!("  C07 + shapes in child processes: {:.1}s", t_part.elapsed().as_secs_f64());
     run.caps.extend(caps.into_iter().take(40));
     for t in table.into_iter().take(6) {
         st.sample(|| t);
     }
     run.rule = format!(
-        "(a) every string over the {}-token alphabet {:?} of length <= {} and every raw code point string over {{0, (, \\, U+D800, U+DFFF, U+10FFFF, a, {{, [, u, }}}} of length <= {} x flag sets {:?}: from_unicode must return Ok or Err (catch_unwind; a watchdog reports any compile > 10 s); (c) every prefix and suffix of every C08 seed pattern, and every prefix followed by each of 15 cut-off construct openings (\\ \\u \\x \\c \\k< \\p{{ \\q{{ (? (?< [ [^ {{ {{1, \\u{{ \\ud83d\\u), x the same flag sets; (c2) every code point of interest (all with a case partner in either mode, encoding-length boundary neighbours, 0..=U+0100, surrogate block ends; thorough: all of 0..=0x10FFFF) substituted into 20 templates (atom, class member, range end, \\q string, set operand, backreference target, quantified, lookbehind, escaped, group name, modifier body, alternation), x the same flag sets x {{optimised, no_opt}}; (c3) 18 numeric contexts (\\u{{ \\x \\u \\c \\k<\\u{{ \\p{{ in and out of classes, group names, {{n}} {{n,m}} {{n,}}, \\N, octal) x every run over three digits of length <= 10 (11 thorough) x {{\"\",u,v,i}}; (b) {} size-parameterised shapes x sizes {:?} x {{\"\",u,v}} x {{main thread, spawned 2 MiB thread}}, each in a child process (8 MiB stack, 6 GiB address space, {} s wall): exit status 0 with Ok/Err; an allocation failure under the 6 GiB cap is a violation for patterns of at most 2^20 code points and a cap beyond; non-trivial = the input compiles",
+        "(a) every string over the {}-token alphabet {:?} of length <= {} and every raw code point string over {{0, (, \\, U+D800, U+DFFF, U+10FFFF, a, {{, [, u, }}}} of length <= {} x flag sets {:?}: from_unicode must return Ok or Err (catch_unwind; a watchdog reports any compile > 10 s); (c) every prefix and suffix of every C08 seed pattern, and every prefix followed by each of 15 cut-off construct openings (\\ \\u \\x \\c \\k< \\p{{ \\q{{ (? (?< [ [^ {{ {{1, \\u{{ \\ud83d\\u), x the same flag sets; (c2) every code point of interest (all with a case partner in either mode, encoding-length boundary neighbours, 0..=U+0100, surrogate block ends; thorough: all of 0..=0x10FFFF) substituted into 20 templates (atom, class member, range end, \\q string, set operand, backreference target, quantified, lookbehind, escaped, group name, modifier body, alternation), x the same flag sets x {{optimised, no_opt}}; (c3) 18 numeric contexts (\\u{{ \\x \\u \\c \\k<\\u{{ \\p{{ in and out of classes, group names, {{n}} {{n,m}} {{n,}}, \\N, octal) x every run over three digits of length <= 10 (11 thorough) x {{\"\",u,v,i}}; (b) {} size-parameterised shapes x sizes {:?} x {{\"\",u,v}} x {{main thread, spawned 2 MiB thread}}, each in a child process (8 MiB stack, 6 GiB address space, {} s of CPU time): exit status 0 with Ok/Err; an allocation failure under the 6 GiB cap is a violation for patterns of at most 2^20 code points and a cap beyond; non-trivial = the input compiles",
         toks.len(),
         TOKENS,
         n_tok,
